@@ -72,6 +72,7 @@ func runOp(op *Op, arg int) (res string, buf []byte) {
 }
 
 func cmdRef() {
+	noSleep = true
 	m := map[string]string{}
 	for i := range ops {
 		for a := 0; a < argSpace; a++ {
@@ -244,6 +245,7 @@ func cmdSched(args []string) {
 	refp := fs.String("ref", "", "reference table")
 	_ = fs.Parse(args)
 	ref := loadRef(*refp)
+	noSleep = true
 	runtime.GOMAXPROCS(1)
 	sc := bufio.NewScanner(os.Stdin)
 	sc.Buffer(make([]byte, 1<<20), 1<<26)
